@@ -17,6 +17,12 @@ def check(ctx):
             ctx.violation("caller-stranded", "SendActiveMessage(k=%s) had not returned 4 s after its time-out" % e.get("k"), {"kind": "live", "event": e})
     conns = lc.split_conns(events)
     lc.trace_conn(ctx, conns, "c06")
+    # the same with the server option WithHasSubcontract(false): every part of a sub-packaged message is reported, answered
+    # and passed to the write callback like a message of its own (Trace_Conn: filt = FALSE)
+    tr4 = os.path.join(ctx.scratch, "c06_nofilter.ndjson")
+    rc, err, events = lc.run_live(ctx, ["live-c06", 8 if thorough else 4, 200 if thorough else 80, tr4, "nofilter"])
+    lc.crash_check(ctx, rc, err, "live-c06-nofilter")
+    lc.trace_conn(ctx, lc.split_conns(events), "c06nofilter")
     # the handlers whose reply depends on the body, hammered by all connections at once
     tr3 = os.path.join(ctx.scratch, "c06_burst.ndjson")
     rc, err, events = lc.run_live(ctx, ["live-c06", 16 if thorough else 8, 300 if thorough else 150, tr3, "burst"])
